@@ -29,9 +29,10 @@ PROPERTY = 'C01'
 COMP = {
     'a': (8, b'a'), 'E': (8, b''), 'K': (0x20, b'k'), 'T': (65535, b'x'), 'L': (8, b'l' * 253),
     'I': (1, b'\x00' * 32), 'P': (2, b'\xee' * 32),
+    'U': (8, 'B\u00f6lter-\u03a3\u03c0\u03c5'.encode('utf-8')),       # text outside ASCII, given raw in the text forms
 }
 URI = {'a': 'a', 'E': '', 'K': '32=k', 'T': '65535=x', 'L': 'l' * 253,
-       'I': 'sha256digest=' + '00' * 32, 'P': 'params-sha256=' + 'ee' * 32}
+       'I': 'sha256digest=' + '00' * 32, 'P': 'params-sha256=' + 'ee' * 32, 'U': 'B\u00f6lter-\u03a3\u03c0\u03c5'}
 
 
 def comp_wire(tok):
@@ -140,10 +141,12 @@ SIG_KEYNAME = {'hmac': '/k/hmac', 'hmac:1': '/k/hmac', 'hmac:63': '/k/hmac', 'hm
                'ecdsa:521': '/k/ec/KEY/1', 'ed': '/k/ed/KEY/1'}
 
 # -- parameter menus --------------------------------------------------------------------------------
-FH_MENU = [[], [['h']], [['h'], ['g', 'h2']]]
+FH_MENU = [[], [['h']], [['h'], ['g', 'h2']], [['h'], ['g', 'h2'], ['h'], ['h']]]       # (the last one lists a delegation three times)
 IPARAMS = [dict(can_be_prefix=c, must_be_fresh=m, nonce=n, lifetime=lt, hop_limit=h, fh=f)
            for c in (False, True) for m in (False, True) for n in (None, 0, 2 ** 32 - 1)
            for lt in (None, 0, 255, 256, 65536, 2 ** 32, 2 ** 63, 2 ** 64 - 1) for h in (None, 0, 255) for f in range(3)]
+IPARAMS += [dict(can_be_prefix=False, must_be_fresh=False, nonce=7, lifetime=4000, hop_limit=None, fh=3),
+            dict(can_be_prefix=True, must_be_fresh=True, nonce=None, lifetime=None, hop_limit=0, fh=3)]
 DEFAULT_IP = dict(can_be_prefix=False, must_be_fresh=False, nonce=None, lifetime=4000, hop_limit=None, fh=0)
 METAS = [dict(content_type=c, freshness_period=fp, final=fb)
          for c in (None, 0, 2, 255, 256, 2 ** 63) for fp in (None, 0, 1000, 2 ** 32, 2 ** 63 - 1, 2 ** 64 - 1) for fb in (None, 'empty', 'seg')] + [None]
@@ -187,6 +190,11 @@ def space_params(tier):
             for plen in (None, 0, 5):
                 for signer in ('none', 'digest', 'hmac', 'null'):
                     yield {'k': 'D', 'name': toks, 'rep': 'list', 'p': i, 'plen': plen, 'signer': signer}
+    # names with raw non-ASCII text in every text form; forwarding hints that list one delegation twice
+    for kind in ('I', 'D'):
+        for toks in (['U'], ['a', 'U'], ['U', 'a', 'U']):
+            for rep in ('uri', 'mixed', 'gen', 'list'):
+                yield {'k': kind, 'name': toks, 'rep': rep, 'p': 'default', 'plen': 3, 'signer': 'digest'}
     # the same parameter objects built through their alternative constructor (a dictionary of keyword values, every key present)
     for i in range(len(IPARAMS)):
         yield {'k': 'I', 'name': ['a'], 'rep': 'list', 'p': i, 'plen': 5, 'signer': 'digest', 'via': 'dict'}
@@ -425,6 +433,15 @@ def run_case(case):
             got_m = (mi2.content_type, mi2.freshness_period, None if mi2.final_block_id is None else bytes(mi2.final_block_id))
             if got_m != want_m:
                 bad('parse-meta', f'parse_data MetaInfo {got_m!r} != given {want_m!r}')
+            else:
+                # what a parse returns is the caller's: changing it (before publishing the content again, say) does not show in the next parse
+                mi2.content_type, mi2.freshness_period, mi2.final_block_id = 7, 98765, b'\x08\x01z'
+                n2.append(b'\x08\x01z')
+                n3, mi3, _, _ = enc.parse_data(wire)
+                got3 = (mi3.content_type, mi3.freshness_period, None if mi3.final_block_id is None else bytes(mi3.final_block_id))
+                if got3 != want_m or [bytes(c) for c in n3] != ref['name']:
+                    bad('parse-again', f'after the caller changed the result of one parse, parsing the same packet again gives MetaInfo {got3!r} / '
+                                       f'{len(n3)} name components')
             sv = sig2.signature_value_buf
         if (None if sv is None else bytes(sv)) != ref['sig_value']:
             bad('parse-sigvalue', 'parsed signature value differs from the wire')
